@@ -242,6 +242,8 @@ class SimSocket(object):
         if self.err is not None:
             return True
         c = self.conn
+        if getattr(self, 'force_eagain', False):
+            return getattr(self, 'room_left', 0) > 0
         return c is not None and c.c2s_inflight < self.net.sndbuf
 
     def _notify(self):
@@ -301,11 +303,16 @@ class SimSocket(object):
         if c is None or not self.connected:
             raise _socket.error(errno.ENOTCONN, 'not connected')
         room = net.sndbuf - c.c2s_inflight
+        if getattr(self, 'force_eagain', False):
+            # injected back-pressure: the peer stopped reading; only `room_left` more bytes fit, then EAGAIN for good
+            room = min(room, getattr(self, 'room_left', 0))
         if room <= 0:
             net.count('eagain')
             raise _socket.error(errno.EAGAIN, 'would block')
         n = min(len(data), room)
-        if n > 1 and net.partial_write_p and sim.net_rng.random() < net.partial_write_p:
+        if getattr(self, 'force_eagain', False):
+            self.room_left = getattr(self, 'room_left', 0) - n
+        if n > 1 and net.partial_write_p and not getattr(self, 'force_eagain', False) and sim.net_rng.random() < net.partial_write_p:
             n = sim.net_rng.randrange(1, n + 1)
             if n < len(data):
                 net.count('partial_write')
